@@ -265,6 +265,10 @@ def hint_of(op):
     return m
 
 
+# what harness/prog sets TimestampFunc to (prog.FixedTime = 2001-02-03T04:05:06.123456789Z)
+FIXED_TIME_NS = 981173106123456789
+
+
 def jcompare(j, d, m, types, st, path, out, sigs):
     """j: JSON build value, d: decoded binary value, m: method that logged it (type hint).
     Appends differing paths to out."""
@@ -286,8 +290,16 @@ def jcompare(j, d, m, types, st, path, out, sigs):
         if abs(ji - di) <= 1000:
             return
         # CoarseJsonTimeSig: the JSON layout is coarser than 1 us and the JSON instant is the CBOR instant truncated to it
-        # (the binary instant itself is within 1 us of the logged one, hence the margins)
-        if res > 1000 and -1000 <= di - ji < res + 1000:
+        # (the binary instant itself is within 1 us of the logged one, hence the margins). Where the logged instant is
+        # known (a keyed Time / Timestamp field), the signature also requires that the decoded binary instant IS the
+        # logged one within 1 us: a decoder that shifts an instant by less than the layout's resolution is not this finding.
+        arg = None
+        op = types.get(path[-1]) if path else None
+        if op and op.get("m") in ("Time", "Fields") and isinstance(op.get("v"), dict) and op["v"].get("t") == "time" and "i" in op["v"]:
+            arg = int(op["v"]["i"])
+        elif path and path[-1] == "time" and (op or {}).get("m") == "Timestamp":
+            arg = FIXED_TIME_NS
+        if res > 1000 and -1000 <= di - ji < res + 1000 and (arg is None or abs(di - arg) <= 1000):
             sigs.add("CoarseJsonTimeSig")
         out.append(path)
         return
